@@ -1052,7 +1052,7 @@ func (c *Ctx) opsxRun() []*opsVerdict {
 
 func init() {
 	register(&Rule{ID: "OPS.model", Floor: 44,
-		Doc: "every operator of both managers evaluated abstractly on variants with symbolic payloads: per first-operand type the result tag and host expression over (x, converted y) equal the statement's matrix, the second operand goes through Convert to the first operand's type, value-dependent branches are explored both ways (zero / range guards become error outcomes, boolean cells truth tables), undefined cells end in errors, Null operands follow the Null policy",
+		Doc: "every operator of both managers evaluated abstractly on variants with symbolic payloads: per first-operand type the result tag and host expression over (x, converted y) equal the statement's matrix, the second operand goes through Convert to the first operand's type, value-dependent branches are explored both ways (zero / range guards become error outcomes, boolean cells truth tables), undefined cells end in errors, Null operands follow the Null policy; the result of every operator for every pair of operand types (Null included) is a variant of its own - storing something else in a returned result never shows in the answer to the same call on fresh operands",
 		Run: func(c *Ctx) []*Obligation {
 			o := newObl("OPS.model")
 			for _, v := range c.opsxRun() {
